@@ -28,6 +28,7 @@ FUNCS = {
     "f1": (["K"], "R"),
     "FacS": (["Set", "Map", "R"], "R"),
     "pw": (["R", "R"], "R"),
+    "FacDiff": (["Set", "Map", "Set", "Map"], "R"),
 }
 _z3f = {}
 
@@ -112,7 +113,7 @@ def to_lean(t):
     op = t[0]
     if op == "forall":
         binders = " ".join(f"({n} : {LEAN_SORT[s]})" for n, s in t[1])
-        return f"∀ {binders}, {to_lean(t[2])}"
+        return f"(∀ {binders}, {to_lean(t[2])})"
     if op == "num":
         return f"({t[1]} : ℝ)"
     if op == "empty":
@@ -123,7 +124,7 @@ def to_lean(t):
         fixed = {"d1": "DimS1", }
         args = " ".join(f"({to_lean(x)})" for x in t[2:])
         head = {"d1": "d1", "r1": "r1", "f1": "f1", "DimS": "LinS d1", "RootS": "LinS r1", "FacS": "FacS f1",
-                "pw": "Real.rpow"}[t[1]]
+                "pw": "Real.rpow", "FacDiff": "FacDiff f1"}[t[1]]
         return f"({head} {args})"
     a = [to_lean(x) for x in t[1:]]
     if op in ("=", "+", "-", "*", "/", "<"):
